@@ -174,6 +174,9 @@ static void process_get_attr(struct xcm_socket *socket,
 			     struct ctl_proto_get_attr_req *req,
 			     struct ctl_proto_msg *response)
 {
+    /* the request is whatever bytes the client sent */
+    req->attr_name[sizeof(req->attr_name) - 1] = '\0';
+
     LOG_CLIENT_GET_ATTR(socket, req->attr_name);
 
     struct ctl_proto_get_attr_cfm *cfm = &response->get_attr_cfm;
